@@ -34,6 +34,13 @@ Add(v, a, r, form, path, sig, cat, srpm, sform) ==
                         IF x = k THEN [path |-> path, sigkey |-> Lower(sig), category |-> cat] ELSE rpms[x]]
           /\ out' = "ok"
 
+\* del manifest[v]: the whole variant goes; an unknown variant is a KeyError and changes nothing
+Del(v) == IF \E k \in DOMAIN rpms : k[1] = v
+          THEN rpms' = [k \in {x \in DOMAIN rpms : x[1] # v} |-> rpms[k]] /\ out' = "ok"
+          ELSE out' = "KeyError" /\ UNCHANGED rpms
+\* the manifest is written and the file read back into the SAME object: nothing changes, later adds build on it
+Reload == out' = "ok" /\ UNCHANGED rpms
+
 (* rpm-manifest 0.3: doc maps <<variant, arch, srpm, rpm>> to [path, sigkey, type]; source packages
    sit under arch "src" keyed <<v, "src", s, s>>.  Every binary entry is re-added (type "package"
    becomes "binary"); the source package is added next to it when the src table has it.      *)
@@ -57,8 +64,12 @@ NoSourceArch == \A k \in DOMAIN rpms : k[2] \in BinArch                         
 UnderSource == \A k \in DOMAIN rpms : IF Rpm[k[4]].src THEN k[3] = k[4] /\ rpms[k].category = "source"
                                       ELSE Rpm[k[3]].src /\ rpms[k].category # "source"
 SigLower == \A k \in DOMAIN rpms : rpms[k].sigkey # "mixed"
-RefusedIsNoop == [][out' = "refused" => UNCHANGED rpms]_vars
+RefusedIsNoop == [][out' \in {"refused", "KeyError"} => UNCHANGED rpms]_vars
 \* a successful add touches exactly one entry
 OnlyAddressed == [][out' = "ok" /\ rpms # rpms' /\ Cardinality(DOMAIN rpms') <= Cardinality(DOMAIN rpms) + 1 =>
-                      Cardinality({k \in DOMAIN rpms : rpms'[k] # rpms[k]}) <= 1]_vars
+                      Cardinality({k \in DOMAIN rpms \cap DOMAIN rpms' : rpms'[k] # rpms[k]}) <= 1]_vars
+\* entries only disappear by deleting their variant, and then all entries of that variant and no other go
+OnlyDelRemoves == [][DOMAIN rpms \subseteq DOMAIN rpms' \/
+                      \E v \in {k[1] : k \in DOMAIN rpms} : /\ DOMAIN rpms' = {k \in DOMAIN rpms : k[1] # v}
+                                                             /\ \A k \in DOMAIN rpms' : rpms'[k] = rpms[k]]_vars
 =============================================================================
